@@ -14,20 +14,26 @@
      same value (C05_spec_*_roundtrip), betterproto's reader takes the canonical form back (C05_accept_scalar);
      Timestamp / Duration strings at microsecond resolution likewise;
    * K13: -0.0 in an implicit-presence field (C05_emit_neg_zero_refuted).
-   * PENDING (not stated as theorems, no admitted lemma anywhere): the message-level statements
-       C05_emit   : json_supported sc o -> json_name_safe on every field name ->
-                    model_emit_accepts sc (jschema_of sc) c o = Some (abs sc o)
-       C05_accept : wf a -> model_reads_canonical sc (jschema_of sc) c cls a = Some a
-     i.e. the composition of the leaf theorems over fields, repeated fields, maps, wrappers, oneofs and
-     nested messages (object keys through protoc_json_name_agrees).  Their executable forms
-     Proofs/C05Model.v model_emit_accepts / model_reads_canonical are evaluated inside Coq by the harness on every
-     generated message (and on the instance Examples below); enum leaves (Model/Enum.v, property C20) are covered
-     by those evaluations only. *)
+   * message level (proved; definitions in Proofs/C05MsgDef.v and Proofs/C05AccDef.v):
+       C05_emit    for ANY object of ANY well-formed schema matched by the reference-side schema (js_matches: json_name_safe
+                   on every proto field name = K3, distinct json names, same kinds / cardinalities / oneofs / enums), in range,
+                   selected oneof members set, NaN-canonical and without -0.0 in an implicit float (K13):
+                     the text of to_dict(CAMEL) is accepted by json_accepts as the abstract message the object denotes
+                   (fields, optional, repeated, maps, wrappers, oneofs, enums, nested / recursive messages, Timestamp, Duration);
+       C05_accept  for ANY well-formed abstract message (wf_aval: microsecond resolution, K13, and PLAIN-ZERO-TIME below):
+                     from_dict reads the canonical JSON json_spec writes back to that message;
+       both also for the reference-side schema a runtime schema determines (jschema_of), and C05_emit under C04's [good];
+       C05_accept_plain_zero_time_refuted: a PRESENT Timestamp == epoch / Duration == 0 in a field that is neither optional
+                   nor a oneof member comes back absent (betterproto keeps no presence for such a field).  wf_aval leaves out
+                   exactly: K13, this class, values below microsecond resolution (the quantifier of C05) and Durations a
+                   fraction of a second beyond +-315 576 000 000 s (the bound of WellFormed.in_range is on the whole span);
+       C05_msg_hypotheses_satisfiable / C05_msg_nonvacuous: one hand-written schema with every field shape. *)
 From BP Require Import Base.Prelude Model.Types Model.Float Model.Object Model.WellFormed Model.TimeCore Model.Casing.
 From BP Require Import Spec.Time.
 From BP Require Model.Json Model.Time Spec.JsonMap.
 From BP Require Proofs.C04Def.
 From BP Require Import Proofs.C05Casing Proofs.C05Leaf Proofs.C05Model.
+From BP Require Import Proofs.C05MsgDef Proofs.C05AccDef Proofs.C05MsgEmit Proofs.C05AccMain Proofs.C05MsgFinal Proofs.C05MsgEx.
 
 Module J := Model.Json.
 Module S := Spec.JsonMap.
@@ -181,7 +187,7 @@ Example C05_leaf_theorems_nonvacuous :
 Proof. repeat split; vm_compute; reflexivity. Qed.
 
 (* ====================================================================================== *)
-(* the pending message-level statements, on one message holding every leaf form            *)
+(* the message-level statements evaluated on one message holding every leaf form          *)
 (* ====================================================================================== *)
 Example C05_emit_instance :
   option_map S.cv_of_aval (model_emit_accepts Ex.ex_sc Ex.ex_js 0 Ex.ex_obj) = Some (S.cv_of_aval Ex.ex_aval).
@@ -190,3 +196,107 @@ Example C05_accept_instance :
   option_map S.cv_of_aval (model_reads_canonical Ex.ex_sc Ex.ex_js 0 (length builtin_classes) Ex.ex_aval) =
   Some (S.cv_of_aval Ex.ex_aval).
 Proof. exact model_accept_instance. Qed.
+
+(* ====================================================================================== *)
+(* MESSAGE LEVEL                                                                           *)
+(* ====================================================================================== *)
+(* Side conditions (all decidable; Proofs/C05MsgDef.v, Proofs/C05AccDef.v):
+     wf_schema sc            the class table is what the plugin / the field API builds (C04)
+     js_matches off sc js    js (descriptor-pool side: proto names, json_name, kinds, cardinalities, oneofs, enum values)
+                             describes the classes of sc from index off on; per field: the attribute is
+                             safe_snake_case(proto name) and json_name_safe(proto name) [K3]; json_name = protoc's default;
+                             json names of a class pairwise distinct; enum value names distinct and not "__..."
+     emit_good sc o          = in_range sc o                                (C01 / C04)
+                               && oneof_sel sc o   a selected oneof member holds a value (implied by C04's oneof_ok)
+                               && nan_canon o      every NaN is float("nan")          (C04 cls nan-payload)
+                               && no_neg_zero sc o no -0.0 in an implicit-presence float / double   [K13]
+     keys_ok CAMEL sc        every camelCase key addresses its own field again (C04 / C19)
+     wf_aval sc js off k a   a is a well-formed abstract value: ranges, UTF-8, one NaN, microsecond Timestamps / Durations,
+                             <= 1 member per oneof, distinct map keys, [K13], [PLAIN-ZERO-TIME]
+   abs_obj sc o is the abstract message the object denotes (harness/c05_reference.py abs_bp), model_emit_accepts and
+   model_reads_canonical are the executable forms in Proofs/C05Model.v. *)
+
+(* C05_emit: what to_dict(CAMEL) + json.dumps emits is accepted by the reference parser (as specified) as the same message *)
+Theorem C05_emit : forall sc js off c o,
+  wf_schema sc = true -> js_matches off sc js = true -> emit_good sc o = true ->
+  ocls o = (c + off)%nat -> (c < length (S.jclasses js))%nat ->
+  model_emit_accepts sc js c o = Some (abs_obj sc o).
+Proof. intros sc js off c o WF JM. exact (emit_accepted sc js off JM WF c o). Qed.
+Print Assumptions C05_emit.
+
+(* ... under C04's hypothesis on the value (good = in_range, oneof_ok, dicts_ok, json_supported) plus K13's *)
+Theorem C05_emit_json_supported : forall sc js off c o,
+  wf_schema sc = true -> js_matches off sc js = true -> C04Def.good sc o = true -> no_neg_zero sc o = true ->
+  ocls o = (c + off)%nat -> (c < length (S.jclasses js))%nat ->
+  model_emit_accepts sc js c o = Some (abs_obj sc o).
+Proof. exact emit_accepted_good. Qed.
+Print Assumptions C05_emit_json_supported.
+
+(* ... and against the reference-side schema the runtime schema determines (proto name = attribute name) *)
+Theorem C05_emit_jschema_of : forall sc o,
+  wf_schema sc = true -> js_matches 0 sc (jschema_of sc) = true -> emit_good sc o = true ->
+  (ocls o < length (classes sc))%nat ->
+  model_emit_accepts sc (jschema_of sc) (ocls o) o = Some (abs_obj sc o).
+Proof. exact emit_accepted_self. Qed.
+Print Assumptions C05_emit_jschema_of.
+
+(* C05_accept: from_dict reads the canonical JSON of any well-formed abstract message back to that message *)
+Theorem C05_accept : forall sc js off c a,
+  wf_schema sc = true -> js_matches off sc js = true -> C04Def.keys_ok J.CAMEL sc = true ->
+  wf_aval sc js off (S.JMsg c) a = true ->
+  model_reads_canonical sc js c (c + off) a = Some a.
+Proof. exact reads_canonical. Qed.
+Print Assumptions C05_accept.
+
+Theorem C05_accept_jschema_of : forall sc c a,
+  wf_schema sc = true -> js_matches 0 sc (jschema_of sc) = true -> C04Def.keys_ok J.CAMEL sc = true ->
+  wf_aval sc (jschema_of sc) 0 (S.JMsg c) a = true ->
+  model_reads_canonical sc (jschema_of sc) c c a = Some a.
+Proof. exact reads_canonical_self. Qed.
+Print Assumptions C05_accept_jschema_of.
+
+(* PLAIN-ZERO-TIME: {"ts": "1970-01-01T00:00:00Z"} for `google.protobuf.Timestamp ts = 1;` (not optional, not in a oneof):
+   every other hypothesis holds, the reference prints the member, betterproto reads it and loses it again *)
+Theorem C05_accept_plain_zero_time_refuted :
+  wf_schema pz_sc = true /\ js_matches (length builtin_classes) pz_sc pz_js = true /\ C04Def.keys_ok J.CAMEL pz_sc = true /\
+  wf_time 0 0 = true /\ wf_aval pz_sc pz_js (length builtin_classes) (S.JMsg 0) pz_aval = false /\
+  S.json_spec pz_js 0 pz_aval = Some (S.JObj [(pz_name, S.JStr pz_text)]) /\
+  model_reads_canonical pz_sc pz_js 0 (length builtin_classes) pz_aval = Some (S.AMsg [S.FAbsent]) /\
+  S.AMsg [S.FAbsent] <> pz_aval.
+Proof. exact accept_plain_zero_time_refuted_thm. Qed.
+Print Assumptions C05_accept_plain_zero_time_refuted.
+
+(* K13 on the accept side: the canonical {"x": -0.0} is read and then emitted as {} *)
+Theorem C05_accept_neg_zero_refuted :
+  wf_schema nz_sc = true /\ js_matches (length builtin_classes) nz_sc nz_js = true /\ C04Def.keys_ok J.CAMEL nz_sc = true /\
+  wf_aval nz_sc nz_js (length builtin_classes) (S.JMsg 0) nz_aval = false /\
+  model_reads_canonical nz_sc nz_js 0 (length builtin_classes) nz_aval = Some (S.AMsg [S.FOne (S.AFloat 0)]) /\
+  S.AMsg [S.FOne (S.AFloat 0)] <> nz_aval.
+Proof. exact accept_neg_zero_refuted_thm. Qed.
+Print Assumptions C05_accept_neg_zero_refuted.
+
+(* ---- non-vacuity ---- *)
+(* a hand-written schema with every field shape (Proofs/C05MsgEx.v: repeated scalar / message / enum, map<string, message>,
+   map<bool, Timestamp>, map<int32, enum>, optional message / Timestamp / scalar holding their defaults, BytesValue and
+   FloatValue wrappers (empty bytes, NaN), a oneof of message / Duration / enum whose selected member is the zero span,
+   plain and recursive nested messages, a plain negative Duration, an unnamed and an aliased enum number, non-ASCII text) *)
+Example C05_msg_hypotheses_satisfiable :
+  wf_schema Ex2.sc = true /\ js_matches (length builtin_classes) Ex2.sc Ex2.js = true /\
+  C04Def.keys_ok J.CAMEL Ex2.sc = true /\ emit_good Ex2.sc Ex2.m = true /\
+  ocls Ex2.m = (0 + length builtin_classes)%nat /\
+  wf_aval Ex2.sc Ex2.js (length builtin_classes) (S.JMsg 0) ex2_aval = true.
+Proof. exact ex2_hypotheses. Qed.
+Example C05_msg_nonvacuous :
+  model_emit_accepts Ex2.sc Ex2.js 0 Ex2.m = Some ex2_aval /\
+  model_reads_canonical Ex2.sc Ex2.js 0 (length builtin_classes) ex2_aval = Some ex2_aval /\
+  match J.to_dict J.CAMEL false Ex2.sc Ex2.m with J.JObj d => length d = 16%nat | _ => False end.
+Proof. exact ex2_evaluates. Qed.
+(* the generated instance above (Ex.ex_sc / Ex.ex_js / Ex.ex_obj / Ex.ex_aval, written by the harness's printers) meets the
+   same hypotheses, abs_obj is the harness's abstraction on it, and jschema_of matches its own schema *)
+Example C05_msg_instance_hypotheses :
+  wf_schema Ex.ex_sc = true /\ js_matches (length builtin_classes) Ex.ex_sc Ex.ex_js = true /\
+  C04Def.keys_ok J.CAMEL Ex.ex_sc = true /\ emit_good Ex.ex_sc Ex.ex_obj = true /\
+  abs_obj Ex.ex_sc Ex.ex_obj = Ex.ex_aval /\
+  wf_aval Ex.ex_sc Ex.ex_js (length builtin_classes) (S.JMsg 0) Ex.ex_aval = true /\
+  js_matches 0 Ex.ex_sc (jschema_of Ex.ex_sc) = true.
+Proof. repeat split; vm_compute; reflexivity. Qed.
